@@ -1179,6 +1179,21 @@ func l1l2(p *Prog, o *obls, fn *ssa.Function, gs gateSpec) {
 		if !ok {
 			p2 = append(p2, fmt.Sprintf("the playout head is advanced at %s on a path where the queue call may have failed: a pop for a number that is not buffered disturbs the buffer", p.instrPos(st)))
 		}
+		// a pop moves the head by one: what is stored is the head's previous value plus the constant 1 (consecutive
+		// numbers). A head set from the popped packet's own number jumps over everything buffered in between.
+		step := false
+		if bo, isBin := p.origin(st.Val).(*ssa.BinOp); isBin && bo.Op == token.ADD {
+			for _, pair := range [][2]ssa.Value{{bo.X, bo.Y}, {bo.Y, bo.X}} {
+				if ld, isLd := p.origin(pair[0]).(*ssa.UnOp); isLd && ld.Op == token.MUL && isConstInt(pair[1], 1) {
+					if fa, isFa := ld.X.(*ssa.FieldAddr); isFa && fieldKeyAddr(fa) == headKey {
+						step = true
+					}
+				}
+			}
+		}
+		if !step {
+			p2 = append(p2, fmt.Sprintf("the playout head is set at %s to something other than its previous value plus one: the next pop does not continue with the consecutive number", p.instrPos(st)))
+		}
 	}
 	if len(p2) > 0 {
 		o.bad("L2", key, pos, strings.Join(p2, "; "))
@@ -1708,7 +1723,7 @@ func (p *Prog) firstIterationReaches(h *ssa.BasicBlock, i int, subst map[ssa.Val
 
 // l5Pair: the trailing/current pair (pa, pb) of one loop: back edges advance it as (pa := pb; pb := pb.f), and on entry
 // pb is pa.f or the unlink at block `at` is unreachable in the first iteration.
-func l5Pair(p *Prog, pa, pb *ssa.Phi, field int, fname string, at *ssa.BasicBlock, where string, bad, notes *[]string) {
+func l5Pair(p *Prog, pa, pb *ssa.Phi, field int, fname string, at *ssa.BasicBlock, where string, guardNonNil bool, bad, notes *[]string) {
 	h := pa.Block()
 	for i := range pa.Edges {
 		ea, eb := pa.Edges[i], pb.Edges[i]
@@ -1725,6 +1740,11 @@ func l5Pair(p *Prog, pa, pb *ssa.Phi, field int, fname string, at *ssa.BasicBloc
 			continue
 		}
 		if p.pureKey(eb) == "*("+p.pureKey(ea)+"."+fname+")" {
+			continue
+		}
+		// the trailing pointer starts as nil and the unlink through it is behind a test that it is not nil (`if prev ==
+		// nil { head = pos.next } else { prev.next = pos.next }`): the first iteration takes the other branch
+		if isNilConst(ea) && guardNonNil {
 			continue
 		}
 		if p.firstIterationReaches(h, i, map[ssa.Value]ssa.Value{pa: ea, pb: eb}, at) {
@@ -1822,7 +1842,7 @@ func l5ListUnlink(p *Prog, o *obls) {
 							continue
 						}
 						n++
-						l5Pair(p, ca, cb, fa.Field, fname, cs.Block(), p.instrPos(cs)+" (through "+funcKey(fn)+")", &bad, &notes)
+						l5Pair(p, ca, cb, fa.Field, fname, cs.Block(), p.instrPos(cs)+" (through "+funcKey(fn)+")", p.nilnessAt(parA, st.Block()) == 1, &bad, &notes)
 					}
 					return
 				}
@@ -1833,7 +1853,7 @@ func l5ListUnlink(p *Prog, o *obls) {
 				return
 			}
 			n++
-			l5Pair(p, pa, pb, fa.Field, fname, st.Block(), p.instrPos(st), &bad, &notes)
+			l5Pair(p, pa, pb, fa.Field, fname, st.Block(), p.instrPos(st), p.nilnessAt(pa, st.Block()) == 1, &bad, &notes)
 		})
 		if n == 0 {
 			continue
